@@ -481,6 +481,8 @@ def byte_source_class(e, body):
     if c[0] == "slice" and is_inline_array(c[1]):
         r = strip_load(c[2])
         h = hex_of(c[1])
+        if r[0] == "agg" and r[1] == "RangeFull":
+            return ("whole-inline-array", h)
         if r[0] == "agg" and r[1] in ("RangeTo", "Range") and is_inline_len(dict(r[3])["end"], h) and \
                 (r[1] == "RangeTo" or strip_load(dict(r[3])["start"]) == ("const", 0)):
             return ("inline-array[..len]", h)
@@ -511,11 +513,48 @@ def cc1(F, R):
         if e.kind != "call" or e.name not in APPENDERS or len(e.args) < 2:
             continue
         src = e.args[APPENDERS[e.name]]
-        cls, who = byte_source_class(src, e.body)
         n += 1
+        parts = literal_parts(src)
+        if parts is not None:
+            # `for part in [x, y] { v.extend(part) }`: every element of the literal list is appended
+            for px in parts:
+                report_source(R, e, px)
+            continue
+        report_source(R, e, src)
+    R.floor("CC1", "append sites in concat()", n, 1, b.where())
+
+
+def literal_parts(src):
+    """byte source that is the item of an iteration over a literal array `[x, y, ..]` -> the elements, in order"""
+    c = strip_load(src)
+    for _ in range(6):
+        if c[0] == "adapt" and c[1] in ("copied", "cloned"):
+            c = strip_load(c[2])
+        elif c[0] == "iter" and strip_load(c[1])[0] != "array":
+            c = strip_load(c[1])
+        elif c[0] == "call" and c[1].split("::")[-1] in ("iter", "deref", "as_slice", "as_ref", "to_vec", "clone") and c[2]:
+            c = strip_load(c[2][0])
+        else:
+            break
+    if c[0] == "item":
+        it = strip_load(c[1])
+        if it[0] == "iter":
+            arr = strip_load(it[1])
+            for _ in range(3):
+                if arr[0] == "cast":
+                    arr = strip_load(arr[2])
+            if arr[0] == "array":
+                return list(arr[1])
+    return None
+
+
+def report_source(R, e, src):
+    if True:
+        cls, who = byte_source_class(src, e.body)
         sink = short_path(e.path).replace("<T, A>", "").replace("<impl [T]>", "slice")
         if cls == "whole-inline-array":
-            R.bad("CC1", "CC1/Hex::concat/byte-source=whole-inline-array/sink=%s" % ("Vec::" + e.name if "Vec" in e.path else e.name), e.where(),
+            opnd = {("param", 1): "receiver", ("param", 2): "argument"}.get(who, "other")
+            R.bad("CC1", "CC1/Hex::concat/whole-inline-array-appended/operand=%s/into=%s" % (opnd, "heap" if "Vec" in e.path else "inline"), e.where(),
                   "all 8 bytes of an inline operand's array are appended, not only its first len bytes: the result contains the "
                   "operand's padding (e.g. [01,02].concat(9 bytes) = 01-02-00-00-00-00-00-00-…)",
                   {"source": show(src, e.body), "guards": [show(f, e.body) for f in sorted(e.facts, key=repr)]})
@@ -525,7 +564,6 @@ def cc1(F, R):
             R.bad("CC1", "CC1/Hex::concat/byte-source=%s" % cls, e.where(),
                   "cannot establish CC1: bytes appended to the result come from an unrecognised source",
                   {"source": show(src, e.body)})
-    R.floor("CC1", "append sites in concat()", n, 1, b.where())
 
 
 def cc2(F, R):
@@ -576,11 +614,41 @@ def cc2(F, R):
             pass
         else:
             seq.append(("init", "unknown:" + show(v, b)[:60], None))
-        apps = [a for a in raw if a.kind == "call" and a.name in ("extend_from_slice", "extend", "append", "push", "extend_from_within") and
-                a.body is b and strip_sites(strip_load(a.args[0])) == strip_sites(v) and b.dominates(a.site, site)]
-        apps.sort(key=lambda a: sum(1 for o in apps if b.dominates(o.site, a.site)))
-        for a in apps:
-            seq.append(("append", side(a.args[1]), a))
+        here = b.facts_at(site)
+        apps = []
+        for a in raw:
+            if not (a.kind == "call" and a.name in ("extend_from_slice", "extend", "append", "push", "extend_from_within", "insert", "resize",
+                                                    "truncate", "clear", "pop", "remove", "drain", "retain") and
+                    a.args and strip_sites(strip_load(a.args[0])) == strip_sites(v)):
+                continue
+            if a.body is b and b.dominates(a.site, site):
+                apps.append((a.site, a))
+                continue
+            # an append inside a loop that runs to its end before the result is built: unconditional in each iteration
+            hdr = None
+            for x in walk(a.args[1]) if len(a.args) > 1 else ():
+                if x[0] == "item" and isinstance(x[2], int):
+                    hdr = x[2]
+            own = [f for f in a.facts if f not in here and not (f[0] == "in" and f[2] == frozenset(["Some"]) and strip_load(f[1])[0] == "discr" and
+                                                             strip_load(strip_load(f[1])[1])[0] == "next")]
+            if a.body is b and hdr is not None and b.dominates((hdr, 0), site) and not own:
+                apps.append(((hdr, 0), a))
+            elif a.body is not b or b.reaches(a.site, site):
+                seq.append(("conditional-" + a.name, "unknown", a))
+        apps.sort(key=lambda sa: sum(1 for o in apps if o[0] != sa[0] and b.dominates(o[0], sa[0])))
+        for _, a in apps:
+            if a.name not in ("extend_from_slice", "extend", "append", "push"):
+                seq.append((a.name, "unknown", a))
+                continue
+            parts = literal_parts(a.args[1])
+            if parts is not None:
+                for px in parts:
+                    seq.append(("append", side(px), a))
+            elif a.name == "push" or any(x[0] == "item" for x in walk(a.args[1])):
+                # one element per iteration: fine if the loop walks a whole operand; sides only
+                seq.append(("append-each", side(a.args[1]), a))
+            else:
+                seq.append(("append", side(a.args[1]), a))
         return seq
     for site, e in results:
         fs = dict(e[3])
@@ -612,7 +680,38 @@ def cc2(F, R):
                         if is_inline_len(st, left) and side(en) == "both" and byte_source_class(a.args[1], b)[0] == "bytes()" and \
                                 byte_source_class(a.args[1], b)[1] == right:
                             okc = True
+            # the same copy as a loop: for (d, s) in bytes[l..].iter_mut().zip(h.bytes()) { *d = *s }
+            for w in raw:
+                if w.kind != "write" or w.body is not b:
+                    continue
+                loc, val = strip_load(w.loc), strip_load(w.val)
+                if not (loc[0] == "field" and val[0] == "field" and strip_load(loc[1])[0] == "item" and
+                        strip_sites(strip_load(loc[1])) == strip_sites(strip_load(val[1]))):
+                    continue
+                z = strip_load(strip_load(loc[1])[1])
+                if not (z[0] == "adapt" and z[1] == "zip" and len(z[3]) == 1):
+                    continue
+                sides2 = {"(tuple)::0": strip_load(z[2]), "(tuple)::1": strip_load(z[3][0])}
+                d, sfrom = sides2.get(loc[2]), sides2.get(val[2])
+                if d is None or sfrom is None or loc[2] == val[2]:
+                    continue
+                if d[0] == "iter" and d[2] == "iter_mut" and strip_load(d[1])[0] == "slice":
+                    sl = strip_load(d[1])
+                    r = strip_load(sl[2])
+                    if r[0] == "agg" and r[1] in ("RangeFrom", "Range") and is_inline_len(dict(r[3])["start"], left) and \
+                            is_inline_array(sl[1]) and hex_of(sl[1]) == left and \
+                            byte_source_class(sfrom, b) == ("bytes()", right):
+                        hdr = strip_load(loc[1])[2]
+                        own = [f for f in w.facts if f not in b.facts_at(site) and not (f[0] == "in" and f[2] == frozenset(["Some"]) and strip_load(f[1])[0] == "discr")]
+                        if isinstance(hdr, int) and b.dominates((hdr, 0), site) and not own:
+                            okc = True
             oka = is_inline_array(arr) and hex_of(arr) == left
+            fit = [f for f in b.facts_at(site) if f[0] == "in" and f[2] <= frozenset(range(0, 9)) and strip_sites(strip_load(f[1])) == strip_sites(ln)]
+            if okl and not fit:
+                R.bad("CC2", "CC2/Hex::concat/inline-result-unguarded", b.where(site),
+                      "the inline result is built without testing that l + len(h) fits the 8-byte array: a longer result panics or is cut",
+                      {"guards": [show(f, b) for f in b.facts_at(site)]})
+                continue
             if okl and okc and oka:
                 R.ok("CC2", b.where(site), "inline result = left array with right bytes copied to [l .. l+len(h)], length l + len(h)")
             else:
@@ -638,7 +737,11 @@ def cc3(F, R):
         R.bad("CC3", "CC3/Hex/interior-mutability", "(lib)", "Hex contains interior-mutable or shared parts: %s" % badp)
     else:
         R.ok("CC3", "(lib)", "Hex has no interior mutability: a shared reference cannot change it")
-    for site, s in b.writes():
-        loc = b.expr_place(s["lhs"], site)
-        if mentions(loc, lambda x: x in (("param", 1), ("param", 2))):
-            R.bad("CC3", "CC3/Hex::concat/write-through-operand", b.where(site), "concat() writes through one of its operands")
+    # a `&Hex` to a type without interior mutability can only be written through with unsafe code
+    f0 = b.span.rsplit(":", 1)[0]
+    us = [u for u in F.unsafe if u["user"] and not u["from_expansion"] and u["span"].rsplit(":", 1)[0] == f0]
+    if us:
+        R.bad("CC3", "CC3/Hex::concat/unsafe-in-hex-module", us[0]["span"],
+              "user-written unsafe code in the module of concat(): the borrow checker's guarantee that a shared operand is not written no longer covers it")
+    else:
+        R.ok("CC3", b.where(), "no unsafe code in %s: shared operands cannot be written through" % f0)
